@@ -4,7 +4,7 @@ For such text the contexts recomputed by `ircutils.wrap` from the produced lines
 contexts of the original text, so the reserved overhead is always sufficient and the visible text is
 preserved.
 -/
-import LimnoriaModel.C12.LemmasReply
+import LimnoriaModel.C12.LemmasMores
 namespace C12
 open Py
 
